@@ -447,7 +447,7 @@ Definition split_rest (tx_len : Z) (s1 : vsock) : step unit :=
     if is_remote_fin_or_later (v_state s1) then SOk s1 tt
     else
       let '(segs1, pe) := pop_expired_mtu_probe (v_segs s1)
-                            (timer_expired (v_t_retransmit s1) (v_now s1))
+                            (timer_expired (v_t_retransmit s1) (v_now s1) && negb (is_local_fin_or_later (v_state s1)))
                             (o_mtu_probe_max_retx (v_opts s1)) in
       match pe with
       | PeExpired rewind_to payload_size =>
@@ -508,7 +508,7 @@ Proof.
 Qed.
 
 Lemma split_rest_shift tx_len (s1 : vsock) :
-  match snd (pop_expired_mtu_probe (v_segs s1) (timer_expired (v_t_retransmit s1) (v_now s1))
+  match snd (pop_expired_mtu_probe (v_segs s1) (timer_expired (v_t_retransmit s1) (v_now s1) && negb (is_local_fin_or_later (v_state s1)))
                                    (o_mtu_probe_max_retx (v_opts s1))) with
   | PeExpired rewind_to _ => cmp_ok (v_last_sent_seq_nr s1) rewind_to
   | _ => true
@@ -517,7 +517,7 @@ Lemma split_rest_shift tx_len (s1 : vsock) :
 Proof.
   unfold split_rest. intros G. rewrite pj_state, is_remote_fin_shift.
   destruct (is_remote_fin_or_later (v_state s1)); [reflexivity|].
-  rewrite pj_segs, pj_t_retransmit, pj_now, pj_opts, pop_expired_shift.
+  rewrite pj_segs, pj_t_retransmit, pj_now, pj_opts, is_local_fin_shift, pop_expired_shift.
   destruct (pop_expired_mtu_probe (v_segs s1) _ _) as [segs1 pe]. cbn [fst snd] in *.
   destruct pe as [rw psz| |]; cbn [shift_pe].
   - cbv zeta. rewrite st_segs.
